@@ -26,7 +26,7 @@ import common
 import vlib
 
 # workloads that really use several GPUs in plain mode (the others run on one GPU of the set)
-DISTRIBUTING = {'aes', 'bitonicsort', 'fir', 'kmeans', 'matrixmultiplication', 'matrixtranspose', 'relu',
+DISTRIBUTING = {'aes', 'argreuse', 'bitonicsort', 'fir', 'kmeans', 'matrixmultiplication', 'matrixtranspose', 'relu',
                 'simpleconvolution', 'vectoradd'}
 # host arrays that describe the arrangement itself, not data
 def arrangement_field(name):
@@ -34,6 +34,7 @@ def arrangement_field(name):
 
 
 SMALL_PLATFORM = 'cus=1,sas=2'
+HARNESS_PROGRAMS = {'argreuse'}
 
 
 def prog_key(c):
@@ -70,6 +71,14 @@ def groups(ctx, thorough):
     # unified device on a timing platform with few compute units (2 per GPU): there the number of work-groups exceeds the
     # CU count, so the per-GPU shares of distributeWGToGPUs have real remainders (on the stock platform 64 CUs per GPU
     # swallow a small grid whole)
+    # harness programs are not in the acceptance matrix, so Config admits no timing class for them; their multi-GPU
+    # arrangements are also run on the small timing platform (driver behaviour is the subject, the platform is cheap)
+    def harness_timing(w, var):
+        if w not in HARNESS_PROGRAMS:
+            return []
+        return [dict(c, c=dict(c['c'], mode='timing', gpu='r9nano'), knobs=SMALL_PLATFORM)
+                for c in var if c['c']['mode'] == 'emu' and c['c']['umem'] == 0]
+
     def small(var, i, both):
         uni = [c for c in var if c['c']['mode'] == 'timing' and c['c']['dist'] == 'unified' and c['c']['umem'] == 0]
         uni = sorted(uni, key=c01.case_key)
@@ -78,7 +87,7 @@ def groups(ctx, thorough):
         return [dict(c, knobs=SMALL_PLATFORM) for c in uni]
 
     if thorough:
-        return [(key, ref, var + small(var, i, True)) for i, (key, ref, var) in enumerate(out)] + boundary
+        return [(key, ref, var + small(var, i, True) + harness_timing(ref['w'], var)) for i, (key, ref, var) in enumerate(out)] + boundary
     # quick: one program per workload (rotating size class), all emulation variants of the distributing workloads and the
     # unified ones of the rest, plus two timing variants per distributing workload
     byw = {}
@@ -91,7 +100,7 @@ def groups(ctx, thorough):
         emu = [c for j, c in enumerate(emu) if w in DISTRIBUTING or (j + ctx.seed + i) % 4 == 0]
         tim = [c for c in var if c['c']['mode'] == 'timing' and c['c']['umem'] == 0]
         tim = [c for j, c in enumerate(tim) if (j + ctx.seed + i) % len(tim) < (2 if w in DISTRIBUTING else 1)] if tim else []
-        pick.append((key, ref, emu + tim + small(var, i, False)))
+        pick.append((key, ref, emu + tim + small(var, i, False) + harness_timing(w, var)))
     return pick + boundary
 
 
@@ -126,9 +135,20 @@ def compare(ref, var):
     return d
 
 
+def arg_model(ctx):
+    """ArgCapture.tla: a queued launch runs with the argument values its struct held at enqueue time, whatever the host does
+    to the struct afterwards; the named deviation (driver aliases the caller's struct) must break the invariant."""
+    r = ctx.tlc_expect_ok(['system'], 'MC_ArgCapture.tla', 'MC_ArgCapture.cfg', workers=4, timeout=600)
+    d = ctx.tlc(['system'], 'MC_ArgCapture.tla', 'MC_ArgCapture_alias.cfg', workers=1, timeout=300, kind='demo')
+    if 'ExecutedArgsAreEnqueuedArgs' not in d.violated:
+        raise vlib.Infra('ArgCapture.tla with the alias deviation no longer violates ExecutedArgsAreEnqueuedArgs: %r' % d.violated)
+    ctx.cov['arg_capture_model'] = {'states': r.distinct, 'alias_deviation_violates': d.violated}
+
+
 def run_system(ctx):
     thorough = ctx.tier == 'thorough'
     drv = ctx.go_build('sysrun')
+    arg_model(ctx)
     gs = groups(ctx, thorough)
     extra = ['-trace-insts', '-sys-trace', 'sys.ndjson']
     refs = c01.run_many(ctx, drv, [g[1] for g in gs], extra=extra, tag='sysref')
@@ -137,11 +157,21 @@ def run_system(ctx):
                                                                   sum(1 for _, c in flat if c['c']['mode'] == 'timing')))
     vres = c01.run_many(ctx, drv, [c for _, c in flat], extra=extra, tag='sysvar')
     compared, differing = 0, 0
+    ref_reported = set()
     distinct = set()
     pool = []
     for (gi, c), v in zip(flat, vres):
         ref = refs[gi]
         rf = c01.classify_quiet(ref)
+        if rf is not None and gi not in ref_reported:
+            # the single-GPU run is the model's expectation for every arrangement: a reference that misses the host
+            # reference (or dies) is reported here as well, once
+            ref_reported.add(gi)
+            rsig = {'part': 'system', 'kind': 'single_gpu_reference_' + rf[0], 'bench': ref['case']['w'],
+                    'arch': ref['case']['c']['arch'], 'detail': c01.norm_msg(rf[1])}
+            ctx.report_failure('C18 system: %s: the single-GPU emulation run itself fails: %s: %s' % (gs[gi][0], rf[0], rf[1][:300]),
+                               rsig, {'system': True, 'driver': {'cmd': 'sysrun'}, 'case': ref['case'], 'reference': ref['case'],
+                                      'kind': rf[0], 'detail': rf[1]})
         if rf is not None and not (rf[0] == 'verify_failed' and ref['obs']):
             # the single-GPU emulation run itself crashes: C01's business, no reference to compare with
             ctx.notes.append('reference run of %s fails (%s)' % (gs[gi][0], rf[0]))
